@@ -133,6 +133,8 @@ def run(ctx, rep, tier):
     n = 0
     quick_names = {n_ for n_, _, _ in list(families("quick", ("digits", "octal", "words"))) + list(families("quick", ("any",)))}
     not_decided = []
+    # the families of the quick tier first, then the thorough-only ones: the CPU budget then truncates the extras, never the core
+    fams = [f for f in fams if f[0] in quick_names] + [f for f in fams if f[0] not in quick_names]
     for name, spec, assume in fams:
         if time.process_time() - t0 > budget:
             rep.coverage["truncated_at_family"] = name
